@@ -15,8 +15,10 @@ import (
 	"os"
 	"path/filepath"
 	"reflect"
+	"runtime"
 	"sort"
 	"sync"
+	"sync/atomic"
 	"time"
 
 	"github.com/theparanoids/ysshra/agent/shimagent"
@@ -449,6 +451,67 @@ func rangeCase(c *core.Ctx, w *world, code byte) {
 		map[string]interface{}{"code": code, "wait_returned_at_once": returnedAtOnce, "no_panic": noPanic, "released_by_broadcast": released})
 }
 
+// stormCase: a waiter is parked on the code; while many other clients are just registering on the same code (the
+// condition variable's lock is busy most of the time), one request with the code arrives.  The waiter parked before
+// the request was sent must be released by it.
+func stormCase(c *core.Ctx, code byte, trial int) {
+	w, err := newWorld()
+	if err != nil {
+		c.Native("cannot start the yubiagent server: "+err.Error(), nil)
+		return
+	}
+	defer w.close()
+	input := map[string]interface{}{"code": code, "trial": trial}
+	req, _, err := w.connect()
+	if err != nil {
+		c.Native("cannot connect: "+err.Error(), input)
+		return
+	}
+	aDone := make(chan struct{})
+	go func() { core.Guard(func() { _ = w.shim.Wait(code) }); close(aDone) }()
+	deadline := time.Now().Add(2 * time.Second)
+	for w.shim.VerifWaiters(code) < 1 && time.Now().Before(deadline) {
+		time.Sleep(100 * time.Microsecond)
+	}
+	if w.shim.VerifWaiters(code) < 1 {
+		c.Native("a Wait call did not park within two seconds", input)
+		return
+	}
+	var stop int32
+	var spawned int64
+	var sg sync.WaitGroup
+	for g := 0; g < 24; g++ {
+		sg.Add(1)
+		go func() {
+			defer sg.Done()
+			for atomic.LoadInt32(&stop) == 0 && atomic.AddInt64(&spawned, 1) < 40000 {
+				go func() { core.Guard(func() { _ = w.shim.Wait(code) }) }()
+				runtime.Gosched()
+			}
+		}()
+	}
+	time.Sleep(time.Duration(500+trial*137%1500) * time.Microsecond)
+	replied := make(chan struct{})
+	go func() { _, _ = req.Forward([]byte{code, 0, 0, 0, 0}); close(replied) }()
+	select {
+	case <-replied:
+	case <-time.After(5 * time.Second):
+	}
+	atomic.StoreInt32(&stop, 1)
+	sg.Wait()
+	select {
+	case <-aDone:
+		c.NativeCheck(1)
+	case <-time.After(2 * time.Second):
+		c.Native(fmt.Sprintf("a client parked on code %d before a request with that code was sent was not released by it (other clients were registering on the same code at that moment)", code), input)
+	}
+	// let everybody go
+	for i := 0; i < 200 && w.shim.VerifWaiters(code) > 0; i++ {
+		_ = w.shim.Broadcast(code)
+		time.Sleep(2 * time.Millisecond)
+	}
+}
+
 // agedCase: after n earlier requests with the code (n-1 of them delivered straight to the shim's Broadcast, the
 // way ServeAgent delivers every request's first byte, the last one through a client connection when the code
 // is a listing request), a fresh waiter still parks, stays parked while other codes are requested, and is
@@ -604,6 +667,11 @@ func runC20(c *core.Ctx) {
 		for _, code := range []byte{11, 39} {
 			agedCase(c, n, code)
 		}
+	}
+
+	// a request arriving while other clients register on the same code
+	for t, n := 0, c.N(12, 120); t < n; t++ {
+		stormCase(c, core.Pick(r, byte(11), byte(13), byte(39), byte(0)), t)
 	}
 
 	// the range rule on all 256 codes, directly on the shim
